@@ -406,6 +406,7 @@ c.requires('not self.upgrading and not self.closed', 'one-upgrade-at-a-time')
 c.requires('self.server.max_http_buffer_size >= 0', 'limit-nonneg')
 c.raises('OSError', 'self.upgraded', label='already-upgraded-refused',
          ensures=[('established-websocket-undisturbed', QUIET + ' and ws_log == old(ws_log) and '
+                   'received == old(received) and '
                    'self.queue.taken == old(self.queue.taken) and '
                    'self.queue.items == old(self.queue.items)')], props=['C06'])
 c.may_raise('Exception', 'not self.upgraded', label='driver-or-frame-error', ensures=[
@@ -446,6 +447,7 @@ c.requires('not self.closed', 'live-session')
 c.requires('self.server.max_http_buffer_size >= 0', 'limit-nonneg')
 c.raises('OSError', UPG + ' and self.upgraded', label='already-upgraded-refused',
          ensures=[('established-websocket-undisturbed', QUIET + ' and ws_log == old(ws_log) and '
+                   'received == old(received) and '
                    'self.queue.taken == old(self.queue.taken)')], props=['C06'])
 c.may_raise('Exception', UPG + ' and not self.upgraded', label='driver-or-frame-error', ensures=[
     ('flag-reset', 'not self.upgrading'),
